@@ -11,6 +11,9 @@ BASES = ["a", "b", "x", "sin", "cos", "m", "n", "tmp", "v"]
 TAGS = ["t1", "t2", "T1", "g"]
 KINDS = ["generic", "data", "routine", "container", "intrinsic", "datatype"]
 IFACES = ["auto", "arg", "unres", "static", "common"]
+# defects that are repaired by a fix patch (fixes/C16-*.patch): the model follows the FIXED code, so meeting one of
+# them on the real code is a violation, whatever known_findings.json still lists
+FIXED_IN_MODEL = {"C16-merge-specialise-before-raise"}
 ERR = {"KeyError": "Key", "ValueError": "Value", "SymbolError": "Symbol", "TypeError": "Type",
        "NotImplementedError": "NotImpl", "InternalError": "Internal"}
 
@@ -261,6 +264,10 @@ def execute(w, op):
             _, t, ids = op
             T(t).specify_argument_list([w.objs[i] for i in ids])
             return "ok", info
+        if kind == "swapprops":
+            _, t, i, j = op
+            T(t).swap_symbol_properties(w.objs[i], w.objs[j])
+            return "ok", info
         if kind == "merge":
             _, t, o, skip = op
             osyms = list(T(o).symbols)
@@ -421,7 +428,12 @@ def clause_merge(w, info):
 # --------------------------------------------------------------------------- known-finding classifiers
 
 def classify(w, op, info, clause, outcome, before, after, culprit=None):
-    """Which known defect class (if any) explains a failed clause of a merge."""
+    """Which known defect class (if any) explains a failed clause of a merge / swap_symbol_properties."""
+    if op[0] == "swapprops" and clause == "atomic" and outcome == "err:Type":
+        # only the interface of symbol1 may differ
+        import re
+        strip = (lambda d: re.sub(r"(=%d:[^:]*:[^:]*:)(imp\([^)]*\)|[a-z]+)" % op[2], r"\1I", d))
+        return "C16-swapprops-partial" if strip(before) == strip(after) else None
     if op[0] != "merge" or "merge" not in info:
         return None
     S = w.S
@@ -440,6 +452,13 @@ def classify(w, op, info, clause, outcome, before, after, culprit=None):
         return None
     if outcome in ("err:Internal", "err:Key") and any(info["merge"][7].get(id(s)) for s in other_syms):
         return "C16-merge-import-from-outer-container"
+    self_pre, names_pre = info["merge"][3], info["merge"][5]
+    if outcome == "err:Symbol":
+        for s in other_syms:
+            for x in self_pre:
+                if (names_pre[id(x)].lower() == names_pre[id(s)].lower() and isinstance(s, S.IntrinsicSymbol)
+                        and isinstance(x, S.IntrinsicSymbol) and not (s.is_unresolved and x.is_unresolved)):
+                    return "C16-merge-intrinsic-pair-unrenamable"
     skipobjs = [w.objs[i] for i in skip]
     if outcome == "err:Symbol" and any(isinstance(s, S.ContainerSymbol) or info["merge"][8].get(id(s)) for s in skipobjs):
         return "C16-merge-skip-ignored-in-container-phase"
@@ -555,6 +574,13 @@ def gen_op(rng, w, malformed):
             k, iface, wild = gen_symspec(rng, w, t)
             name = w.objs[i].name if rng.random() < 0.8 else gen_name(rng)
             return ["swap", t, i, case_variant(rng, name.lower()), k, iface, wild]
+    if r < 0.855:
+        ls = live_syms(w, t)
+        if len(ls) >= 2:
+            data = [i for i in ls if type(w.objs[i]).__name__ == "DataSymbol"]
+            pick = data if len(data) >= 2 and rng.random() < 0.6 else ls
+            i, j = rng.sample(pick, 2)
+            return ["swapprops", t, i, j]
     if r < 0.87:
         ls = [i for i in live_syms(w, t)]
         good = [i for i in ls if type(w.objs[i]).__name__ == "DataSymbol" and w.objs[i].is_argument]
@@ -706,7 +732,7 @@ def run_history(shape, extra, ops_or_gen, intr, rng=None, nops=0, malformed=Fals
         if outcome.startswith("err:") and before != after:
             cls = classify(w, op, info, "atomic", outcome, before, after)
             problems.append((k, "atomic", f"rejected {op[0]} ({outcome}) changed the tables:\n  before {before}\n  after  {after}", cls))
-            stop = True          # symbols may now be shared between two tables: outside the model's alphabet
+            stop = (op[0] == "merge")   # symbols may now be shared between two tables: outside the model's alphabet
         if outcome.startswith("err:Other"):
             stop = True
         if stop:
@@ -746,7 +772,10 @@ def run(chk):
         "(the model stores symbol records by value and empties the merged table)",
         "names and tags are non-empty ASCII; no CodeBlock/Call nodes in the scopes; no GenericInterfaceSymbol; "
         "visibility arguments unused",
-        "lookup()/get_symbols() stop at a ScopingNode whose table is detached (modelled quirk of parent_symbol_table)"]
+        "lookup()/get_symbols() stop at a ScopingNode whose table is detached (modelled quirk of parent_symbol_table)",
+        "the model follows the code WITH fixes/C16-defer-specialise.patch (check_for_clashes defers specialise()); on a "
+        "tree without it the check reports the specialise-before-raise input as a VIOLATION",
+        "swap_symbol_properties is only applied to two symbols that are entries of the table"]
     chk.cov["trusted_base"] = ["Lean 4.33.0 kernel", "axioms propext/Classical.choice/Quot.sound only (audited)",
                                "harness/props/c16.py: world builder, canonical dump, clause evaluators",
                                "CPython dict/OrderedDict insertion-order semantics (association lists in the model)"]
@@ -764,7 +793,7 @@ def run(chk):
         hist.append(run_history(shape, extra, None, intr, rng=chk.rng, nops=chk.rng.randint(8 if focus else 4, 25),
                                 malformed=malformed, focus_merge=focus))
     model = driver("C16", [line_of(h) for h in hist])
-    known = {e["id"]: e for e in known_findings("C16")}
+    known = {e["id"]: e for e in known_findings("C16") if e["id"] not in FIXED_IN_MODEL}
     dist, errs, seen_known = {}, {}, set()
     for h, mo in zip(hist, model):
         mouts = mo.split(" # ") if mo else []
@@ -811,7 +840,7 @@ def replay(payload):
     h = run_history(payload["shape"], payload["extra"], payload["ops"], intr)
     for op, out in zip(h["ops"], h["outs"]):
         print(sx(op), "->", out)
-    known = {e["id"] for e in known_findings("C16")}
+    known = {e["id"] for e in known_findings("C16")} - FIXED_IN_MODEL
     bad = [p for p in h["problems"] if p[3] not in known]
     for (k, clause, text, cls) in h["problems"]:
         print(f"op {k}: clause '{clause}' FAILS: {text}" + (f"  [known finding {cls}]" if cls in known else ""))
